@@ -136,6 +136,12 @@ def run(ctx):
             t1 = float(lf.smape_points(pts[l:r], lf.linear_fit_points(pts[l:r])))
         else:
             t1 = rng.choice([0.0, 0.001, 0.01, 0.05, 0.1, 0.5, 1.0, 2.5])
+        if '@' not in fam and not fam.startswith('trace') and rng.random() < 0.05:
+            # raw byte counts as an int64 array (heights k * 2^33): squares / products of differences exceed 2^63 in the input's own dtype
+            from .. import rdpfam
+            pts, fam = rdpfam.bytecount_curve(rng, rng.randrange(6, 30))
+            one(ctx, kind, pts, rng.choice([0.0, 0.01, 0.05, 0.1]), t2, fam, rng.random() < 0.8)
+            continue
         one(ctx, kind, pts, t1, t2, fam)
 
 
